@@ -28,6 +28,8 @@ SIDECARS = {
     'tbrmatchedmarkets': 'mmverif.contracts.tbrmatchedmarkets_spec',
     'tbrmmdesignparameters': 'mmverif.contracts.tbrmmdesignparameters_spec',
     'tbrmmdiagnostics': 'mmverif.contracts.clients_spec',
+    'utils': 'mmverif.contracts.utils_spec',
+    'common_classes': 'mmverif.contracts.utils_spec',
     'tbrmmscore': 'mmverif.contracts.clients_spec',
     'tbrmmdesign': 'mmverif.contracts.clients_spec',
 }
@@ -142,7 +144,8 @@ def prove(targets, props=None, timeout_ms=10000, use_cvc5='fallback'):
     side = load_sidecar(modname)
     if quals is None:
       quals = {'tbrmmscore': getattr(side, 'SCORE_FUNCTIONS', None),
-               'tbrmmdesign': getattr(side, 'DESIGN_FUNCTIONS', None)}.get(
+               'tbrmmdesign': getattr(side, 'DESIGN_FUNCTIONS', None),
+               'common_classes': getattr(side, 'CC_FUNCTIONS', None)}.get(
                    modname) or side.FUNCTIONS
     for q in quals:
       try:
